@@ -37,6 +37,8 @@ type drvTree interface {
 	// the stop-th element (0 = never). Returns the yielded pairs per pass and the number of callbacks
 	// received after a false.
 	Seq(sel []string, stop, passes int) ([][]kv, int)
+	// SeqHook makes one complete pass and calls hook(i) from inside the loop body before taking the i-th pair
+	SeqHook(sel []string, hook func(i int)) []kv
 	Dump() string
 	// TranscriptLit turns a generator literal into what the Lean driver needs (adds the sort key
 	// for collation trees).
@@ -99,7 +101,24 @@ func (a *adapter[K]) TranscriptLit(lit string) string {
 	return lit
 }
 
+func (a *adapter[K]) SeqHook(sel []string, hook func(i int)) []kv {
+	var got []kv
+	i := 0
+	a.mkSeq(sel)(func(k K, v int) bool {
+		hook(i)
+		i++
+		got = append(got, kv{a.render(k), v})
+		return true
+	})
+	return got
+}
+
 func (a *adapter[K]) Seq(sel []string, stop, passes int) ([][]kv, int) {
+	seq := a.mkSeq(sel)
+	return a.runSeq(seq, stop, passes)
+}
+
+func (a *adapter[K]) mkSeq(sel []string) func(func(K, int) bool) {
 	var seq func(func(K, int) bool)
 	switch sel[0] {
 	case "all":
@@ -107,10 +126,10 @@ func (a *adapter[K]) Seq(sel []string, stop, passes int) ([][]kv, int) {
 	case "back":
 		seq = a.t.Backward()
 	case "topk":
-		n, _ := strconv.Atoi(sel[1])
+		n, _ := strconv.ParseUint(sel[1], 10, 64)
 		seq = a.t.TopK(uint(n))
 	case "botk":
-		n, _ := strconv.Atoi(sel[1])
+		n, _ := strconv.ParseUint(sel[1], 10, 64)
 		seq = a.t.BottomK(uint(n))
 	case "range":
 		seq = a.t.Range(a.parse(sel[1]), a.parse(sel[2]))
@@ -121,6 +140,10 @@ func (a *adapter[K]) Seq(sel []string, stop, passes int) ([][]kv, int) {
 	default:
 		panic("bad selector " + sel[0])
 	}
+	return seq
+}
+
+func (a *adapter[K]) runSeq(seq func(func(K, int) bool), stop, passes int) ([][]kv, int) {
 	var out [][]kv
 	late := 0
 	for p := 0; p < passes; p++ {
